@@ -249,7 +249,7 @@ func indexedDiffers(a, b geojson.Object) bool {
 func c08Gen(t *rapid.T) c08Case {
 	class := rapid.IntRange(0, 2).Draw(t, "optclass")
 	text := gj.Doc(t, gj.Opts{MaxDepth: 3, Noise: rapid.Bool().Draw(t, "noise"), Lattice: rapid.IntRange(0, 3).Draw(t, "lattice") > 0,
-		Mutations: rapid.SampledFrom([]int{0, 0, 0, 1}).Draw(t, "nmut"), RectBias: class == 1, LongBias: class == 0})
+		Mutations: rapid.SampledFrom([]int{0, 0, 0, 1}).Draw(t, "nmut"), RectBias: class >= 1, LongBias: class == 0})
 	var o optsModel
 	switch class {
 	case 0: // index options only
@@ -268,6 +268,7 @@ func c08Gen(t *rapid.T) c08Case {
 		o = defaultOptsModel
 		o.RequireValid = true
 		o.AllowSimplePoints = rapid.IntRange(0, 3).Draw(t, "simple") == 0
+		o.AllowRects = rapid.Bool().Draw(t, "rects") // validity must be judged before the representation shortcut returns
 	}
 	return c08Case{Text: text, Opts: o}
 }
